@@ -19,6 +19,7 @@ import time
 from .. import common
 
 PROP = "C10"
+THOROUGH_SEEDS = 1        # seeds per thorough run (bin/check)
 VL = os.path.join(common.VERIF, "harness_life")
 VL_BIN = os.path.join(common.HARNESS, "target", "vl", "debug", "vl")
 INTERESTING = {"freeze": 3, "move": 3, "take_schema": 3, "drop_reader": 2, "par_use": 2, "to_arc": 2, "drop_handle": 2, "clone_arc": 1, "new_cfg": 2,
